@@ -15,6 +15,7 @@ RULE = ("segments of every class (incl. cubics with loops/cusps, arcs with sub-s
 ASSUMPTIONS = ["Bezier reversed/split: rounding bound; interior Bezier crops (t1 relocated by root finding) 1e-8*size; arcs 1e-7*size "
                "(2e-4*size in the exactly-fitting / half-ellipse window, see C04)",
                "path crop length compared to length(T0,T1) to 1e-6 relative (C06 owns length)"]
+RULE += ' Also: Segments under test are also products of reversed() or of an end crop; a no-scipy configuration covers the length clauses on small Bezier paths.'   # added after the seeded-change rounds (DESIGN.md section 10)
 CONFIGS = ['scipy', 'noscipy']
 BUDGET = {'quick': {'scipy': 20000, 'noscipy': 240}, 'thorough': {'scipy': 300000, 'noscipy': 8000}}
 REQUIRED = ['segment_obtained_from_reversed', 'seg:L', 'seg:Q', 'seg:C', 'seg:A', 'path', 'path:wraparound', 'path:repeated_segment', 'path:joint_T', 'interior_crop']
